@@ -815,7 +815,7 @@ def inventory(ctx, rid, desc, roots=None, scope=None, floor_sites=None, floor_fu
             raise MissingAnchor('no I/O thread entry point found')
         seen = ctx.cg.reachable(roots)
         for a in PD.ANCHORS:
-            if scope is None and a not in seen:
+            if callbacks and scope is None and a not in seen:
                 raise MissingAnchor('anchor %s is not reachable from the I/O thread entry points' % a)
         funcs = [p for p in sorted(seen) if (scope is None or scope(p))]
         if floor_funcs and len(funcs) < floor_funcs:
